@@ -331,6 +331,12 @@ private:
         boost::optional<element_t> right_repr =
 	  right.merge_elems(kv.second, left_absval);
         if (!right_repr) {
+	  if (right.is_bottom()) {
+	    // With intersection semantics the merge of the classes is
+	    // already part of the meet and it can be bottom.
+	    left.set_to_bottom();
+	    return left;
+	  }
 	  // this shouldn't happen
 	  CRAB_ERROR("unexpected situation in meet_or_narrowing 1");
 	}
@@ -345,6 +351,10 @@ private:
         boost::optional<element_t> left_repr =
 	  left.merge_elems(kv.second, right_absval);
         if (!left_repr) {
+	  if (left.is_bottom()) {
+	    // See above
+	    return left;
+	  }
 	   // this shouldn't happen
 	  CRAB_ERROR("unexpected situation in meet_or_narrowing 2");
 	}
